@@ -155,18 +155,12 @@ where
     // Nulls in FixedSizeListArray take up space and so we must pad the values
     let values = array.values().to_data();
     let mut mutable = MutableArrayData::new(vec![&values], nullable, cap);
+    // The position in values of the first list slice (non-zero for a sliced array)
+    let first_pos = array.offsets()[0].as_usize();
     // The end position in values of the last incorrectly-sized list slice
-    let mut last_pos = 0;
-
-    // Need to flag when previous vector(s) are empty/None to distinguish from 'All slices were correct length' cases.
-    let is_prev_empty = if array.offsets().len() < 2 {
-        false
-    } else {
-        let first_offset = array.offsets()[0].as_usize();
-        let second_offset = array.offsets()[1].as_usize();
-
-        first_offset == 0 && second_offset == 0
-    };
+    let mut last_pos = first_pos;
+    // Whether any incorrectly-sized list slice was padded with nulls
+    let mut padded = false;
 
     for (idx, w) in array.offsets().windows(2).enumerate() {
         let start_pos = w[0].as_usize();
@@ -186,6 +180,7 @@ where
                     .try_extend_nulls(size as _)
                     .map_err(|e| ArrowError::CastError(e.to_string()))?;
                 null_builder.set_bit(idx, false);
+                padded = true;
                 // Set last_pos to the end of this slice's values
                 last_pos = end_pos
             } else {
@@ -196,18 +191,18 @@ where
         }
     }
 
-    let values = match last_pos {
-        0 if !is_prev_empty => array.values().slice(0, cap), // All slices were the correct length
-        _ => {
-            if mutable.len() != cap {
-                // Remaining slices were all correct length
-                let remaining = cap - mutable.len();
-                mutable
-                    .try_extend(0, last_pos, last_pos + remaining)
-                    .map_err(|e| ArrowError::CastError(e.to_string()))?;
-            }
-            make_array(mutable.freeze())
+    let values = if !padded {
+        // All slices were the correct length
+        array.values().slice(first_pos, cap)
+    } else {
+        if mutable.len() != cap {
+            // Remaining slices were all correct length
+            let remaining = cap - mutable.len();
+            mutable
+                .try_extend(0, last_pos, last_pos + remaining)
+                .map_err(|e| ArrowError::CastError(e.to_string()))?;
         }
+        make_array(mutable.freeze())
     };
 
     // Cast the inner values if necessary
